@@ -128,9 +128,10 @@ func (c *Check) moduleServicePath(rule string) {
 	if !u.complete() {
 		return
 	}
-	// functions other than the new-batch handler that call the batch-start function
+	issuers := c.issuerFuncs(u)
+	// functions other than the new-batch handler that start a batch
 	for _, f := range c.handFuncs("keeper", "service") {
-		if f == u.NB.Closure {
+		if f == u.NB.Closure || issuers[f] {
 			continue
 		}
 		for _, pa := range c.P.PathsOf(f) {
@@ -139,7 +140,7 @@ func (c *Check) moduleServicePath(rule string) {
 			}
 			var issue *Event
 			for _, ev := range pa.Events {
-				if ev.Kind == EvCall && ev.CI.fn == u.BS {
+				if ev.Kind == EvCall && issuers[ev.CI.fn] {
 					issue = ev
 				}
 			}
@@ -148,13 +149,16 @@ func (c *Check) moduleServicePath(rule string) {
 			}
 			// issued list must be result #0 of the filter whose result #1 is credited
 			okList := false
-			if len(issue.CI.args) >= 3 {
-				if b, ok := issue.CI.args[2].Match("(res 0 $CALL)"); ok && b["$CALL"].Op == u.FL.Name {
+			// the provider list is the batch-start function's parameter of type []AccAddress
+			issued := "?"
+			if li := c.providerListArg(issue.CI.fn, issue); li != nil {
+				issued = shortTerm(li)
+				if b, ok := li.Match("(res 0 $CALL)"); ok && b["$CALL"].Op == u.FL.Name {
 					okList = true
 				}
 			}
 			c.req(okList, rule, unitConstruct(f, "issue-list"), issue.Pos,
-				"requests are issued to the filter's result list (the credited amount is the filter total): issued to "+shortTerm(issue.CI.args[2]))
+				"requests are issued to the filter's result list (the credited amount is the filter total): issued to "+issued)
 			_, queued := c.pathHasEffect(f, pa, func(e *Eff) bool { return e.Kind == "store" && e.Op == "Set" && e.Family == "0x09" })
 			c.req(queued, strings.Replace(rule, "C01.2", "C01.2", 1), unitConstruct(f, "issue-expiry"), issue.Pos, "issuing queues the batch expiry on the same path")
 			c.moduleServiceProviders(rule, f, issue)
@@ -169,8 +173,7 @@ func (c *Check) moduleServicePath(rule string) {
 func (c *Check) moduleServiceProviders(rule string, ms *Func, issue *Event) {
 	// which parameter of ms is the module service whose provider is issued to
 	msParam := ""
-	if len(issue.CI.args) >= 3 {
-		l := issue.CI.args[2]
+	if l := c.providerListArg(issue.CI.fn, issue); l != nil {
 		if l.Op == "lit" && len(l.A) == 2 && strings.HasSuffix(l.A[1].Op, ".ModuleService.Provider") && len(l.A[1].A) == 1 {
 			msParam = l.A[1].A[0].String()
 		}
@@ -284,4 +287,28 @@ func (c *Check) compactRequestValues() []crValue {
 		}
 	}
 	return out
+}
+
+// issuerFuncs: the batch-start function and the functions that merely hand their own provider list on to it.
+func (c *Check) issuerFuncs(u *feeUnits) map[*Func]bool {
+	issuers := map[*Func]bool{u.BS: true}
+	for changed := true; changed; {
+		changed = false
+		for _, f := range c.handFuncs("keeper", "service") {
+			if issuers[f] || (u.NB != nil && f == u.NB.Closure) {
+				continue
+			}
+			for _, pa := range c.P.PathsOf(f) {
+				for _, ev := range pa.Events {
+					if ev.Kind == EvCall && issuers[ev.CI.fn] {
+						if l := c.providerListArg(ev.CI.fn, ev); l != nil && l.Op == "" && strings.HasPrefix(l.At, "P") && !issuers[f] {
+							issuers[f] = true
+							changed = true
+						}
+					}
+				}
+			}
+		}
+	}
+	return issuers
 }
